@@ -225,7 +225,13 @@ func leaderRegion(i int, withLeader func(int) bool) *core.RegionInfo {
 	if withLeader(i) {
 		leader = meta.Peers[i%3]
 	}
-	return core.NewRegionInfo(meta, leader, core.SetWrittenBytes(uint64(1000+i)), core.SetWrittenKeys(uint64(10+i)), core.SetReadBytes(uint64(2000+i)), core.SetReadKeys(uint64(20+i)))
+	opts := []core.RegionCreateOption{core.SetWrittenBytes(uint64(1000 + i)), core.SetWrittenKeys(uint64(10 + i)), core.SetReadBytes(uint64(2000 + i)), core.SetReadKeys(uint64(20 + i))}
+	if i%4 == 1 {
+		// as the heartbeat handler builds it: flow figures are rounded for the statistics only
+		// (pd-server.flow-round-by-digit, default 3), the cached raw values are what is synchronised
+		opts = append(opts, core.WithFlowRoundByDigit(3))
+	}
+	return core.NewRegionInfo(meta, leader, opts...)
 }
 
 type recStream struct {
